@@ -989,6 +989,69 @@ func (e *Env) call(n *ast.CallExpr) tv {
 		return tv{Select(s.Dom, e.keyTerm(arg(0))), nil}
 	case "dom":
 		return tv{e.asSet(arg(0)), nil}
+	case "world":
+		return tv{worldOf(e.h()), nil}
+	case "ret", "worldAfter":
+		// ret("K", j, args...) / worldAfter("K", args...): the result the deterministic contract K
+		// yields in the current (or old) world for these arguments
+		lit, ok := n.Args[0].(*ast.BasicLit)
+		if !ok {
+			evalFail("%s: first argument must be a contract key literal", name)
+		}
+		kname, _ := strconv.Unquote(lit.Value)
+		c, sig := e.eng.contractSig(kname)
+		if c == nil || sig == nil {
+			evalFail("%s: unknown contract %s", name, kname)
+		}
+		if !c.Determ {
+			evalFail("%s: contract %s is not declared deterministic", name, kname)
+		}
+		first := 1
+		j := 0
+		if name == "ret" {
+			jt := e.evalInt(n.Args[1])
+			if !jt.IsInt() {
+				evalFail("ret: result index must be a literal")
+			}
+			j = int(jt.Int.Int64())
+			first = 2
+		}
+		var all []Value
+		nargs := sig.Params().Len()
+		if sig.Recv() != nil {
+			nargs++
+		}
+		if len(n.Args)-first != nargs {
+			evalFail("%s(%s): expected %d arguments, got %d", name, kname, nargs, len(n.Args)-first)
+		}
+		for i := first; i < len(n.Args); i++ {
+			a := e.eval(n.Args[i])
+			var want types.Type
+			k := i - first
+			if sig.Recv() != nil {
+				if k == 0 {
+					want = sig.Recv().Type()
+				} else {
+					want = sig.Params().At(k - 1).Type()
+				}
+			} else {
+				want = sig.Params().At(k).Type()
+			}
+			all = append(all, e.coerceTo(a, want))
+		}
+		argc := detArgs(sig, all)
+		w0 := worldOf(e.h())
+		if name == "worldAfter" {
+			if c.Pure {
+				return tv{w0, nil}
+			}
+			return tv{App("det|"+calleeShort(c.Key)+"|world", IntS, append([]*Term{w0}, argc...)...), nil}
+		}
+		if j >= sig.Results().Len() {
+			evalFail("ret: %s has %d results", kname, sig.Results().Len())
+		}
+		rt := sig.Results().At(j).Type()
+		return tv{detResult(c.Key, j, rt, w0, argc), rt}
 	case "gint", "gbool", "garr": // ghost heap cells keyed by an address
 		lit, ok := n.Args[0].(*ast.BasicLit)
 		if !ok {
@@ -1023,6 +1086,12 @@ func (e *Env) call(n *ast.CallExpr) tv {
 			sort = StringS
 		}
 		return tv{App("uf|"+fname, sort, as...), nil}
+	}
+	// a library lemma used as a hypothesis (its instance is true by assumption; audited by `govc audit`)
+	for _, l := range e.eng.cs.Lemmas {
+		if l.Name == name {
+			return tv{e.applyLemma(n), nil}
+		}
 	}
 	// spec macro
 	if m := e.eng.lookupMacro(name, e.pkg); m != nil {
@@ -1064,6 +1133,24 @@ func (e *Env) applyLemma(call *ast.CallExpr) *Term {
 	}
 	e.eng.lemmasUsed[name] = true
 	return c.evalBool(lem.Body)
+}
+
+// coerceTo adapts an evaluated argument to a declared parameter type (nil, untyped constants, value -> interface).
+func (e *Env) coerceTo(a tv, want types.Type) Value {
+	if _, isNil := a.V.(nilV); isNil {
+		return zeroValue(want)
+	}
+	if t, ok := a.V.(*Term); ok {
+		if s, _ := scalarSort(want); s != nil && s.Kind == SBV && t.Op == "int" {
+			return BVLit(t.Int.Uint64(), s.W)
+		}
+		if types.IsInterface(want) && a.T != nil && !types.IsInterface(a.T) {
+			if payloadIsValue(a.T) {
+				return IfaceV{tagTerm(a.T), t}
+			}
+		}
+	}
+	return a.V
 }
 
 func (e *Env) asIface(v tv) (IfaceV, bool) {
